@@ -21,7 +21,7 @@ Print Assumptions C12_written_at_most_once.
    peer has not answered, the notification (timeout_proc) queues a discard naming its tag ... *)
 Theorem C12_discard_queued : forall s s1 s2 tag,
   p s = OnWire (Some tag) -> subscribed s = true -> tagkey s = true -> conn_open s = true ->
-  step s Fire = Some s1 -> step s1 Notify = Some s2 -> owed s2 = Some tag /\ handed s2 = true.
+  step s Fire = Some s1 -> step s1 Notify = Some s2 -> owed s2 = Some tag /\ evt s2 = true.
 Proof. exact fire_queues_discard. Qed.
 Print Assumptions C12_discard_queued.
 
@@ -47,14 +47,14 @@ Print Assumptions C12_dropped_unsent.
 (* Non-vacuity: mux call written at tick 3 with tag 5, timer at 10 -> discard 5; serial call reaching the
    transport exactly at its deadline is not written. *)
 Example C12_example_mux :
-  exists s, run (init 0) [Enter 10; ToSendQ 5; Tick 3; Write; Tick 10; Fire; Notify; Discard 5] = Some s
+  exists s, run (init 0) [Enter 10; ToSendQ 5; Tick 3; Write; Tick 10; Fire; TimedOut; Notify; Discard 5] = Some s
             /\ writes s = [3] /\ discards s = [5] /\ handed s = true /\ owed s = None.
 Proof. eexists. split; [vm_compute; reflexivity|]. repeat split. Qed.
 Example C12_example_serial :
-  run (init 0) [Enter 10; Tick 10; Fire; ToSerial; Write] = None /\
-  exists s, run (init 0) [Enter 10; Tick 10; Fire; ToSerial; NoWrite] = Some s /\ writes s = [].
+  run (init 0) [Enter 10; Tick 10; Fire; TimedOut; ToSerial; Write] = None /\
+  exists s, run (init 0) [Enter 10; Tick 10; Fire; TimedOut; ToSerial; NoWrite] = Some s /\ writes s = [].
 Proof. split; [vm_compute; reflexivity|]. eexists. split; [vm_compute; reflexivity|reflexivity]. Qed.
 (* the peer's answer racing the notification: no discard is owed *)
 Example C12_example_answered :
-  exists s, run (init 0) [Enter 10; ToSendQ 5; Write; Tick 10; Fire; Answered; Notify] = Some s /\ owed s = None /\ handed s = true.
+  exists s, run (init 0) [Enter 10; ToSendQ 5; Write; Tick 10; Fire; TimedOut; Answered; Notify] = Some s /\ owed s = None /\ handed s = true.
 Proof. eexists. split; [vm_compute; reflexivity|]. split; reflexivity. Qed.
